@@ -93,7 +93,15 @@ def fam_bitarray(v):
     return 'bitarray_model.cpp', [['CAP=%d' % c] for c in _caps(v, ['BitArrayT__NCapacity'], [12, 1, 7, 8, 9, 255])]
 
 
-FAMILIES = [(r'^c20\.bitarray\.', fam_bitarray)]
+def fam_bitstream(v):
+    return 'bitstream_model.cpp', [['CAP=%d' % c] for c in _caps(v, ['BitWriteStreamT__NBitCapacity', 'BitReadStreamT__NBitCapacity'], [255, 46, 9])]
+
+
+def fam_dynarray(v):
+    return 'dynarray_model.cpp', [['CAP=%d' % c] for c in _caps(v, ['DynamicArrayT__NCapacity', 'StaticArrayT__NCapacity'], [5, 16, 1, 255])]
+
+
+FAMILIES = [(r'^c20\.bitarray\.', fam_bitarray), (r'^c13\.', fam_bitstream), (r'^c20\.(dynamic|static)\.', fam_dynarray)]
 
 
 def family(unit):
